@@ -8,14 +8,33 @@ Import ListNotations.
 Open Scope N_scope.
 
 (* `=` with a pattern containing * or ?: whole-string, ASCII-case-insensitive glob match *)
-Theorem C12_glob : forall p subj, glob_safe p = true -> no_newline subj = true ->
+Theorem C12_glob : forall p subj,
   is_match (convert_glob_to_pattern p) subj = Some (glob_spec p subj).
 Proof. exact glob_regex_correct. Qed.
 
 (* like / notlike with % and _ *)
-Theorem C12_like : forall p subj, like_safe p = true -> no_newline subj = true ->
+Theorem C12_like : forall p subj,
   is_match (convert_like_to_pattern p) subj = Some (like_spec p subj).
 Proof. exact like_regex_correct. Qed.
+
+(* Regex::new never fails on a converted pattern (so the exact-comparison fallback of `=` and
+   the error_exit of `like` are unreachable), and the compiled regex is the expected one *)
+Theorem C12_glob_parses : forall p,
+  parse_regex (convert_glob_to_pattern p) = Some (mkrx true true (re_of_glob p)).
+Proof. exact glob_parse. Qed.
+Theorem C12_like_parses : forall p,
+  parse_regex (convert_like_to_pattern p) = Some (mkrx true true (re_of_like p)).
+Proof. exact like_parse. Qed.
+
+(* the four operators as searcher.rs dispatches them *)
+Theorem C12_eq_ne : forall p subj,
+  eq_verdict p subj = Some (if is_glob p then glob_spec p subj else str_eqb p subj) /\
+  ne_verdict p subj = Some (negb (if is_glob p then glob_spec p subj else str_eqb p subj)).
+Proof. exact eq_ne_verdict_correct. Qed.
+Theorem C12_like_notlike : forall p subj,
+  like_verdict p subj = Some (like_spec p subj) /\
+  notlike_verdict p subj = Some (negb (like_spec p subj)).
+Proof. exact like_notlike_verdict_correct. Qed.
 
 (* the boolean specs are the textbook relations *)
 Theorem C12_glob_spec_textbook : forall p w, glob_spec p w = true <-> glob_rel p w.
@@ -41,14 +60,18 @@ Proof. exact is_match_ok. Qed.
 
 (* what `convert` hard-wires about the generated file *)
 Theorem C12_generated_shape :
-  FS.gen.GlobGen.glob_prefix = s "^(?i)"%string /\ FS.gen.GlobGen.glob_suffix = s "$"%string /\
-  FS.gen.GlobGen.like_prefix = s "^(?i)"%string /\ FS.gen.GlobGen.like_suffix = s "$"%string /\
+  FS.gen.GlobGen.glob_prefix = s "^(?is)"%string /\ FS.gen.GlobGen.glob_suffix = s "$"%string /\
+  FS.gen.GlobGen.like_prefix = s "^(?is)"%string /\ FS.gen.GlobGen.like_suffix = s "$"%string /\
   FS.gen.GlobGen.glob_error_chars = [] /\ FS.gen.GlobGen.like_error_chars = [] /\
   FS.gen.GlobGen.is_glob_chars = [42; 63].
 Proof. exact gen_shape_ok. Qed.
 
 Print Assumptions C12_glob.
 Print Assumptions C12_like.
+Print Assumptions C12_glob_parses.
+Print Assumptions C12_like_parses.
+Print Assumptions C12_eq_ne.
+Print Assumptions C12_like_notlike.
 Print Assumptions C12_glob_spec_textbook.
 Print Assumptions C12_like_spec_textbook.
 Print Assumptions C12_negatives_complement.
